@@ -1,7 +1,7 @@
 META = dict(
     engine='cosched+seqx',
     technique='stateless model checking: preemption-bounded exhaustive schedule enumeration (CHESS) of concurrent schedule/select on the 11 real scheduler modules over borrowed execution streams of a parsec_init context; plus bounded-exhaustive schedule/select sequences with buffer overflow',
-    level_text='For each of the 11 scheduler modules (selected through mca_sched, installed by parsec_init, flow_init run for every stream): (E1) every interleaving with <= b preemptions (quick: b=1 - 3-thread scripts only for the lock-free modules -, b=2 for ll/llp and the lfq two-writer script; thorough: b=2 for all, b=3 for ll/llp on 2 streams) of seven 2-3 thread scripts (ring vs steal, foreign push onto stream 0, two writers, buffer overflow vs steal, re-schedule with distance, communication-thread push, three active streams); (E2) every sequence of schedule(ring shape, distance)/select operations up to depth 3-4 (quick) / 4-5 (thorough) on 2 streams and depth 3 / 4 on 3 streams, ring shapes including rings larger than all bounded buffers. Oracle: every select returns NULL or a pending task, never a task twice, and a drain of all streams returns every task handed to schedule.',
+    level_text='For each of the 11 scheduler modules (selected through mca_sched, installed by parsec_init, flow_init run for every stream): (E1) every interleaving with <= b preemptions (quick: b=1 on the three core scripts per module plus module-specific ones, b=2 for the llp writer scripts and ll ring-vs-steal, 3-thread script for lfq and llp; thorough: all scripts, 2 streams b=2 for all and b=3 for ll/llp, 3 streams b=1 for all and b=2 for ll/llp/gd) of seven 2-3 thread scripts (ring vs steal, foreign push onto stream 0, two writers, buffer overflow vs steal, re-schedule with distance, communication-thread push, three active streams); (E2) every sequence of schedule(ring shape, distance)/select operations up to depth 3-4 (quick) / 4-5 (thorough) on 2 streams and depth 3 / 4 on 3 streams (alphabet sizes in the leg names: shapes x distances), ring shapes including rings larger than all bounded buffers; the same through the real __parsec_schedule_vp (next_task retention, dispatch to stream 0, NULL submitter) with selection as in __parsec_get_next_task. Oracle: every select returns NULL or a pending task, never a task twice, and a drain of all streams returns every task handed to schedule.',
     level_note='Sequential consistency at instrumented accesses to the watched scheduler objects and task links; 2-3 threads, <= 4 operations per thread; select only by the owning thread and foreign schedule only onto stream 0 (the usage contract of scheduling.c); synthetic 2-package hwloc topology; weak-memory effects out of reach.',
 )
 RULE = ("cosched legs: every schedule of the 2-3 thread script with at most b preemptions, scheduling points = instrumented accesses of libparsec to the "
@@ -11,49 +11,55 @@ RULE = ("cosched legs: every schedule of the 2-3 thread script with at most b pr
 MODS = ['ap', 'gd', 'ip', 'lfq', 'lhq', 'll', 'llp', 'ltq', 'pbq', 'rnd', 'spq']
 
 def build(ctx):
-    return (ctx.compile('hk-shm', 'seq', ['seq_h.c'], instr=False),
-            ctx.compile('hk-shm', 'conc', ['conc_h.c'], engine='cosched', instr=False, ldflags=['-ldl']))
+    from concurrent.futures import ThreadPoolExecutor
+    ctx.build('hk-shm')
+    with ThreadPoolExecutor(max_workers=2) as ex:
+        a = ex.submit(ctx.compile, 'hk-shm', 'seq', ['seq_h.c'], instr=False, ldflags=['-ldl'])
+        b = ex.submit(ctx.compile, 'hk-shm', 'conc', ['conc_h.c'], engine='cosched', instr=False, ldflags=['-ldl'])
+        return a.result(), b.result()
 
 def check(ctx):
-    import os, vlib
+    import os, time, vlib
     from concurrent.futures import ThreadPoolExecutor
     os.environ['PARSEC_MCA_bind_threads'] = '0'
     seq, conc = build(ctx)
+    built = time.time() - ctx.t0
     quick = ctx.tier == 'quick'
     jobs = []     # (label, exe, args, deadline)
     for m in MODS:
         if quick:
-            jobs.append(('seq_%s_k2s4' % m, seq, ['--sched', m, '--streams', '2', '--depth', '3', '--nshapes', '4', '--ndist', '2'], 60))
-            jobs.append(('seq_%s_k2s3' % m, seq, ['--sched', m, '--streams', '2', '--depth', '4', '--nshapes', '3', '--ndist', '2'], 60))
-            jobs.append(('seq_%s_k3' % m, seq, ['--sched', m, '--streams', '3', '--depth', '3', '--nshapes', '3', '--ndist', '2'], 60))
+            jobs.append(('seq_%s_k2' % m, seq, ['--sched', m, '--streams', '2', '--config', '3:4:2', '--config', '4:3:1', '--config', '3:3:2:1'], 60))
+            jobs.append(('seq_%s_k3' % m, seq, ['--sched', m, '--streams', '3', '--config', '3:3:1', '--config', '2:3:2:1'], 60))
         else:
-            jobs.append(('seq_%s_k2' % m, seq, ['--sched', m, '--streams', '2', '--depth', '5', '--nshapes', '5', '--ndist', '2'], 900))
-            jobs.append(('seq_%s_k2d3' % m, seq, ['--sched', m, '--streams', '2', '--depth', '4', '--nshapes', '4', '--ndist', '3'], 600))
-            jobs.append(('seq_%s_k3' % m, seq, ['--sched', m, '--streams', '3', '--depth', '4', '--nshapes', '4', '--ndist', '2'], 900))
-    cj = '2' if quick else '3'
-    LOCKFREE = ('lfq', 'lhq', 'll', 'llp', 'ltq', 'pbq')       # the others keep one list under a lock
+            jobs.append(('seq_%s_k2' % m, seq, ['--sched', m, '--streams', '2', '--config', '4:4:3', '--config', '5:5:2', '--config', '4:4:2:1'], 1000))
+            jobs.append(('seq_%s_k3' % m, seq, ['--sched', m, '--streams', '3', '--config', '4:4:2', '--config', '3:3:2:1'], 900))
     for m in MODS:
-        for k in (2, 3):
-            scen = 'all'
-            if quick:
-                if k == 3 and m not in LOCKFREE:
-                    continue
-                if k == 3:
-                    scen = '%s_k3_three_comm' % m
-                b = 2 if (m in ('ll', 'llp') and k == 2) else 1
-                dl = 70
-            else:
-                b = 3 if (m in ('ll', 'llp') and k == 2) else 2
-                dl = 1000
-            jobs.append(('conc_%s_k%d_b%d' % (m, k, b), conc, ['--sched', m, '--streams', str(k), '--bound', str(b), '--scenario', scen, '--jobs', cj, '--deadline', str(dl)], dl))
-    if quick:
-        jobs.append(('conc_lfq_k2_b2_two_writers', conc, ['--sched', 'lfq', '--streams', '2', '--bound', '2', '--scenario', 'lfq_k2_two_writers', '--jobs', cj, '--deadline', '70'], 70))
+        if quick:
+            # quick: bound 1, three core scripts per module (+ the module-specific ones), bound 2 where the lock-free merge / lifo code is
+            only = ['sched_vs_steal', 'two_writers', 'resched'] + {'llp': ['foreign_push'], 'lfq': ['overflow'], 'pbq': ['overflow'], 'lhq': ['foreign_push']}.get(m, [])
+            full = {'llp': ['two_writers', 'foreign_push'], 'll': ['sched_vs_steal']}.get(m)
+            a = ['--sched', m, '--streams', '2', '--bound', '2' if full else '1', '--scenario', 'all', '--jobs', '2' if full else '1', '--deadline', '70']
+            for o in only: a += ['--only', o]
+            for f in (full or []): a += ['--full', f]
+            jobs.append(('conc_%s_k2' % m, conc, a, 70))
+            if m in ('lfq', 'llp'):
+                jobs.append(('conc_%s_k3' % m, conc, ['--sched', m, '--streams', '3', '--bound', '1', '--scenario', '%s_k3_three_comm' % m, '--jobs', '2', '--deadline', '70'], 70))
+        else:
+            for k in (2, 3):
+                b = (3 if m in ('ll', 'llp') else 2) if k == 2 else (2 if m in ('ll', 'llp', 'gd') else 1)
+                jobs.append(('conc_%s_k%d_b%d' % (m, k, b), conc, ['--sched', m, '--streams', str(k), '--bound', str(b), '--scenario', 'all', '--jobs', '3', '--deadline', '600'], 600))
+    # global wall budget: jobs started late get what is left (exhaustive:false if cut); the legs always get >= 45 s
+    ctx.set_budget(max(85, built + 45) if quick else 1080)
     def one(j):
         label, exe, args, dl = j
+        dl = int(max(15, min(dl, ctx.remaining())))
+        if exe == conc:
+            args = args[:args.index('--deadline') + 1] + [str(dl)] + args[args.index('--deadline') + 2:]
         extra = ['--deadline', str(dl)] if exe == seq else []
         return ctx.run_engine(exe, args + extra + ['--outdir', vlib.OUT], label=label, timeout=dl + 400)
     # the slow ones first
-    jobs.sort(key=lambda j: (0 if j[0].startswith('conc') and '_k3_' in j[0] else 1 if j[0].startswith('conc') else 2))
+    slow = ('llp', 'lhq', 'lfq', 'ltq', 'pbq')
+    jobs.sort(key=lambda j: (0 if j[0].startswith('conc') else 1, 0 if j[0].split('_')[1] in slow else 1))
     with ThreadPoolExecutor(max_workers=max(2, vlib.NJOBS // 2)) as ex:
         list(ex.map(one, jobs))
     ctx.legs.sort(key=lambda l: (l.get('leg', ''), l.get('name', '')))
@@ -67,8 +73,8 @@ def replay(ctx, path, obj):
     os.environ['PARSEC_MCA_bind_threads'] = '0'
     seq, conc = build(ctx)
     sc = obj['scenario']
-    m = re.match(r'seq_(\w+?)_k(\d+)_sh(\d+)_nd(\d+)_depth(\d+)$', sc)
+    m = re.match(r'seq_(\w+?)_k(\d+)_sh(\d+)_nd(\d+)_depth(\d+)(_vp)?$', sc)
     if m:
-        return subprocess.call([seq, '--sched', m.group(1), '--streams', m.group(2), '--nshapes', m.group(3), '--ndist', m.group(4), '--depth', m.group(5), '--replay', path])
-    m = re.match(r'(\w+?)_k(\d+)_', sc)
+        return subprocess.call([seq, '--sched', m.group(1), '--streams', m.group(2), '--nshapes', m.group(3), '--ndist', m.group(4), '--depth', m.group(5), '--replay', path] + (['--vp'] if m.group(6) else []))
+    m = re.match(r'([a-z]+)_k(\d+)_', sc)
     return subprocess.call([conc, '--sched', m.group(1), '--streams', m.group(2), '--replay', path])
